@@ -68,6 +68,40 @@ func TestFree(t *testing.T) {
 				in[j] = j + 1
 			}
 			inputs = [][]int{in}
+		case "C11", "C06":
+			// cancel while a consumer is PARKED in a blocking receive and (C06) a producer parked in its send: the
+			// stage's sends never have to wait, and it must still notice the cancel, stop and close
+			var c *Case
+			var bad bool
+			var why string
+			if family == "C11" {
+				// a step function that takes a moment: the consumer is parked again before every send
+				st = &Stage{Kind: "unfold", N: rng.Intn(4), Seed: rng.Intn(5), A: 1, B: 1, Slow: []int{0, 20, 200}[r%3]}
+				c, bad, why = freeCancel(st, 0, rng.Intn(40))
+			} else {
+				st = []*Stage{{Kind: "map", A: 2, B: 1}, {Kind: "filter", Pred: &Pred{Kind: "true"}}, {Kind: "fmap", M: 2},
+					{Kind: "takewhile", Pred: &Pred{Kind: "true"}}, {Kind: "join", N: 2}, {Kind: "partition", Pred: &Pred{Kind: "true"}}}[rng.Intn(6)]
+				c, bad, why = freeCancel(st, rng.Intn(3), rng.Intn(40))
+			}
+			stats[stageLabel(st)]++
+			if bad {
+				stats["violations"]++
+			}
+			if bad || emitted < 6 {
+				c.Idx = 1000000 + r
+				c.Family = family
+				c.Gen = "free-running"
+				if bad {
+					c.Gen = "free-running: " + why
+				}
+				enc.Encode(c)
+				w.Flush()
+				emitted++
+			}
+			if stats["violations"] >= 2 {
+				r = rounds
+			}
+			continue
 		default:
 			t.Skip("no free-running mode for " + family)
 		}
@@ -278,4 +312,142 @@ func forkImage(in *Stage, xs []int) [][]int {
 		return [][]int{o0}
 	}
 	return [][]int{o0, o1}
+}
+
+// freeCancel: real goroutines; the consumer of output 0 is parked in a blocking receive, the other outputs are
+// drained, every input gets a producer parked in its send of 1, 2, 3, ...; after k values the consumer cancels
+// and goes on receiving.  The stage must stop and close; how much it still delivers after the cancel is bounded
+// only by chance (a select with both arms ready), so 100000 further values mean it never looked at the cancel.
+func freeCancel(st *Stage, cp int, k int) (*Case, bool, string) {
+	ctx, cancel := context.WithCancel(context.Background())
+	defer cancel()
+	nin := 0
+	switch st.Kind {
+	case "unfold", "emit":
+	case "join":
+		nin = st.N
+	default:
+		nin = 1
+	}
+	ins := make([]chan int, nin)
+	icaps := make([]int, nin)
+	for i := range ins {
+		ins[i] = make(chan int, cp)
+		icaps[i] = cp
+	}
+	rec := &calls{gates: map[int]chan struct{}{}, start: time.Now()}
+	outs := build(ctx, st, ins, rec)
+	c := &Case{Stage: st, ICaps: icaps, Inputs: make([][]int, nin)}
+	for _, o := range outs {
+		c.OCaps = append(c.OCaps, o.cap)
+	}
+	stop := make(chan struct{})
+	sentN := make([]int, nin)
+	var pwg sync.WaitGroup
+	for i := range ins {
+		pwg.Add(1)
+		go func(i int) {
+			defer pwg.Done()
+			for x := 1; ; x++ {
+				select {
+				case ins[i] <- 100*i + x%50:
+					sentN[i]++
+				case <-stop:
+					close(ins[i])
+					return
+				}
+			}
+		}(i)
+	}
+	var got []int
+	after := 0
+	closed := make([]bool, len(outs))
+	done := make(chan struct{})
+	go func() {
+		defer close(done)
+		for n := 0; ; n++ {
+			if n == k {
+				cancel()
+			}
+			v, cl := outs[0].wait()
+			if cl {
+				closed[0] = true
+				break
+			}
+			if n >= k {
+				after++
+				if after > 100000 {
+					return
+				}
+			}
+			if len(got) < k+40 {
+				got = append(got, v)
+			}
+		}
+		for j := 1; j < len(outs); j++ {
+			for {
+				if _, cl := outs[j].wait(); cl {
+					closed[j] = true
+					break
+				}
+			}
+		}
+	}()
+	// the other outputs must not hold the stage back while output 0 is being consumed
+	for j := 1; j < len(outs); j++ {
+		go func(j int) {
+			for {
+				select {
+				case <-done:
+					return
+				default:
+				}
+				if _, cl, ok := outs[j].try(); ok && cl {
+					return
+				}
+				runtime.Gosched()
+			}
+		}(j)
+	}
+	stuck := false
+	select {
+	case <-done:
+	case <-time.After(120 * time.Second):
+		stuck = true
+	}
+	close(stop)
+	pwg.Wait()
+	// pseudo-trace: what was handed over, what output 0 delivered (cut), the cancel, the closes seen
+	for i := range ins {
+		for x := 1; x <= sentN[i]; x++ {
+			c.Moves = append(c.Moves, Move{M: "send", I: i, X: 100*i + x%50, O: "done"})
+		}
+	}
+	for n, v := range got {
+		if n == k {
+			c.Moves = append(c.Moves, Move{M: "cancel", O: "done"})
+		}
+		c.Moves = append(c.Moves, Move{M: "recv", K: 0, O: "val", V: v})
+	}
+	if len(got) <= k {
+		c.Moves = append(c.Moves, Move{M: "cancel", O: "done"})
+	}
+	for j := range outs {
+		if closed[j] {
+			c.Moves = append(c.Moves, Move{M: "recv", K: j, O: "closed"})
+		}
+	}
+	c.Moves = append(c.Moves, Move{M: "end", O: "end", Now: 0, Live: 0})
+	switch {
+	case stuck:
+		return c, true, "neither a value nor the close arrives after the cancel"
+	case !closed[0]:
+		return c, true, "still delivering 100000 values after the cancel: the cancel is never noticed"
+	}
+	for j := range outs {
+		if !closed[j] {
+			return c, true, "an output is not closed after the cancel"
+		}
+	}
+	return c, false, ""
 }
